@@ -16,6 +16,10 @@ CHECKS = {
             "PwbChunk.tla recomputes both CRC-32C words in TLA+. TLC exhausts the chunk decision table (with valid CRCs) and, on minimal chunks, every 1/2(/3)-bit flip and every burst up to 9 (13) bits. For real chunks (all devices/chips/flags, payloads 1..65535) the harness enumerates every single-bit flip, every burst 2..32 at every offset and sampled pairs/triples; implementation and spec must both reject each mutant, and accepted chunks re-encode exactly.",
             "Trusted: PwbChunk.tla incl. its CRC-32C; device table recorded through the public API. CRC algebra (HD>=4, bursts<=32) is not assumed: each enumerated mutant is evaluated.",
             "§4 C03"),
+    "C04": ("model_checking",
+            "Mcp.tla is a protocol model (chunks delivered in any order; drop, duplicate, foreign board/chip, flag toggle, resize). TLC explores every arrival order of up to 5 (6) chunks with every single fault (pairs up to 4 chunks) and checks that the implementation-shaped receiver refines the order-free requirement at every prefix. Every terminal behaviour is concretised into real CRC-valid chunks and run through PwbPacket::try_from(Vec<Chunk>); seeded runs reach 200 chunks. Trace_Mcp recomputes the requirement (incl. PwbV2 decoding of the id-ordered concatenation) from the logged chunk accessors.",
+            "Trusted: Mcp.tla, PwbV2.tla; chunk accessor values as logged. Exhaustive for <= 6 chunks on the model; implementation bound by all exported behaviours x concretisations + seeded samples.",
+            "§4 C04"),
     "C05": ("model_checking",
             "PwbV2.tla is the reference semantics of the PWB v2 payload. TLC visits all 79 single-channel masks, pairs, full/empty masks x requested samples 0,1,2,3,510,511 and every single-field fault; cells and seeded packets go through PwbPacket::try_from and TLC validates verdict, all scalar accessors, both channel lists, waveform_at for all 79 channel ids and exact re-encoding.",
             "Trusted: PwbV2.tla; MAC table recorded through the public API; harness projector.",
